@@ -20,6 +20,9 @@ Reps(v, o, d) == LET H == HitEdges(v, o, d) IN
     {k \in H : \A j \in H : FEq(EdgeT0(v, j, o, d), EdgeT0(v, k, o, d)) => k <= j}
 NumCross(v, o, d) == Cardinality(Reps(v, o, d))
 
+\* the same with the hit set handed over (the judge computes it once per line: the polylines have up to thousands of edges)
+RepsIn(H, v, o, d) == {k \in H : \A j \in H : FEq(EdgeT0(v, j, o, d), EdgeT0(v, k, o, d)) => k <= j}
+
 QT == 16384
 \* quantised parameter tq (scaled by `mul`, e.g. the integer norm of d for unit-direction queries) equals fraction x
 TMatches(tq, x, mul) == AbsC(tq * x[2] - QT * mul * x[1]) <= 2 * AbsC(x[2])
@@ -46,11 +49,29 @@ NextV(v, k) == IF k < Len(v) THEN k + 1 ELSE IF ClosedPoly(v) THEN 2 ELSE 0
 ProperAt(v, k, o, d) == PrevV(v, k) # 0 /\ NextV(v, k) # 0 /\ SideOf(v, PrevV(v, k), o, d) * SideOf(v, NextV(v, k), o, d) < 0
 RobustCount(v, o, d) == \A k \in OnLine(v, o, d) : ProperAt(v, k, o, d)
 
+\* variants of the clauses below with precomputed hit set H and representatives R
+IntersectionsOKh(H, R, v, o, d, ints, mul) ==
+    /\ Len(ints) = Cardinality(R)
+    /\ \A j \in 1..Len(ints) : LET k == ints[j][2] + 1 IN k \in H /\ TMatches(ints[j][1], EdgeT0(v, k, o, d), mul)
+    /\ \A j \in 1..(Len(ints) - 1) : FLt(EdgeT0(v, ints[j][2] + 1, o, d), EdgeT0(v, ints[j + 1][2] + 1, o, d))
+MinRepIn(R, v, o, d) == CHOOSE k \in R : \A j \in R : j = k \/ FLt(EdgeT0(v, k, o, d), EdgeT0(v, j, o, d))
+MaxRepIn(R, v, o, d) == CHOOSE k \in R : \A j \in R : j = k \/ FLt(EdgeT0(v, j, o, d), EdgeT0(v, k, o, d))
+
 MinRep(v, o, d) == CHOOSE k \in Reps(v, o, d) : \A j \in Reps(v, o, d) : j = k \/ FLt(EdgeT0(v, k, o, d), EdgeT0(v, j, o, d))
 MaxRep(v, o, d) == CHOOSE k \in Reps(v, o, d) : \A j \in Reps(v, o, d) : j = k \/ FLt(EdgeT0(v, j, o, d), EdgeT0(v, k, o, d))
 
 QS == 4096    \* points / vectors of the spanning ray, per lattice unit
 \* spanning ray sp = [some, o, d]: exactly when there are two crossings; from the smaller to the larger
+SpanningOKh(R, v, o, d, sp) ==
+    IF Cardinality(R) # 2 THEN ~sp.some
+    ELSE /\ sp.some
+         /\ LET t1 == EdgeT0(v, MinRepIn(R, v, o, d), o, d) t2 == EdgeT0(v, MaxRepIn(R, v, o, d), o, d) IN
+            \A a \in 1..2 :
+               /\ AbsC(sp.o[a] * t1[2] - QS * (o[a] * t1[2] + t1[1] * d[a])) <= 3 * AbsC(t1[2])
+               /\ AbsC(sp.d[a] * t1[2] * t2[2] - QS * d[a] * (t2[1] * t1[2] - t1[1] * t2[2])) <= 3 * AbsC(t1[2] * t2[2])
+MaxIntersectionOKh(R, v, o, d, mx) ==
+    IF R = {} THEN ~mx.some
+    ELSE mx.some /\ TMatches(mx.tq, EdgeT0(v, MaxRepIn(R, v, o, d), o, d), 1)
 SpanningOK(v, o, d, sp) ==
     IF NumCross(v, o, d) # 2 THEN ~sp.some
     ELSE /\ sp.some
